@@ -91,6 +91,16 @@ def gen(rng, i, tier):
         a["vdrop"] = 0.1
     if kind == "PMux" and isinstance(a.get("rs"), list):
         a["rs"] = floatify(a["rs"])
+    if i % 4 == 1:
+        # "house style": optional parameters spelled out with their NEUTRAL (default) values next to the real ones -
+        # an explicit default must mean the same in a file as in the constructor call (e.g. a deprecated key left at 0)
+        import inspect
+
+        for pn, pp in inspect.signature(loader.load().KINDS[kind].__init__).parameters.items():
+            if pn in a or pn in ("self", "name", "limits") or pp.default is inspect.Parameter.empty:
+                continue
+            if isinstance(pp.default, (int, float)) and rng.random() < 0.6:
+                a[pn] = pp.default if rng.random() < 0.7 or isinstance(pp.default, bool) else int(pp.default)
     lim = None
     if rng.random() < 0.6:
         keys = rng.sample(c11_limit_keys(), rng.randint(1, 4))
